@@ -3,7 +3,8 @@ directories, import/include expressions at every syntactic position, equivalent 
 import os
 import posixpath
 
-DIRS = ["", "lib", "lib/sub", "other", "a/b/c"]
+# "stdcfg" and "standard/lib": user directories whose names merely begin like the embedded library's prefix "std/"
+DIRS = ["", "lib", "lib/sub", "other", "a/b/c", "stdcfg", "standard/lib"]
 
 # positions at which an import expression can sit in the importing file.  Each template takes
 # the import expression text IMP (e.g. `import "../x.ucg"`) and the name of the field to read
@@ -101,7 +102,9 @@ def gen_project(r, root, nfiles=None, cyclic=False, positions=None, with_include
     paths = []
     for i in range(n):
         d = r.choice(DIRS)
-        paths.append(posixpath.join(d, "f%d.ucg" % i) if d else "f%d.ucg" % i)
+        # one file name in five begins with "std" as well (std3.ucg, stdlib_f3.ucg): still a user file next to its importer
+        base = r.choice(["f%d.ucg", "f%d.ucg", "f%d.ucg", "f%d.ucg", "std%d.ucg", "stdlib_f%d.ucg", "f%d.ucg", "f%d.ucg", "f%d.ucg", "f%d.ucg"]) % i
+        paths.append(posixpath.join(d, base) if d else base)
     # DAG: file i may import files j > i ; entry is file 0
     edges = {i: [] for i in range(n)}
     for i in range(n):
